@@ -555,9 +555,17 @@ def replay(pid, case):
     inst = absm.inst_from_tlc(c['inst'])
     run_ = record_abs(1, inst, c['cf'], [tuple(x) for x in c['ops']], c.get('unique', False), PLAN[pid]['aux'])
     v = validate(chk, [run_], {pid}, 'replay')[1]
-    if v.get(pid):
-        for x in v[pid]:
+    bad = 0
+    for x in v.get(pid, []):
+        k = chk.match_known({'clause': x['clause']})
+        if k is not None:
+            print(f"KNOWN-FINDING: property={pid} {k['id']}: {k['what']}")
+        else:
+            bad += 1
             print(f'VIOLATION property={pid} replay=(given)   # clause {x["clause"]} at event {x["at"]}')
+    if bad:
         return 1
+    if v.get(pid):
+        return 0
     print('replay: trace accepted')
     return 0
